@@ -45,7 +45,9 @@ class RmsNormFusion(pattern.RewriteRuleClassBase):
         normalized = op.Mul(x, reciprocal_rms)
         normalized = pattern.OrValue([op.Cast(normalized, to=target_dtype), normalized])
         # To support float16, we need to ensure the scale is casted or not.
-        scale = pattern.OrValue([op.Cast(scale, to=compute_dtype), scale])
+        scale = pattern.OrValue(
+            [op.Cast(scale, to=compute_dtype, _outputs=["scale_cast"]), scale]
+        )
         # Workaround: can't use OrValue for final (returned) value
         if self._mul_order:
             return op.Mul(normalized, scale)
@@ -53,7 +55,7 @@ class RmsNormFusion(pattern.RewriteRuleClassBase):
             return op.Mul(scale, normalized)
 
     def check(
-        self, op, x, scale, epsilon, compute_dtype, target_dtype, **_
+        self, op, x, scale, epsilon, compute_dtype, target_dtype, scale_cast=None, **_
     ) -> pattern.MatchResult:  # type: ignore[name-defined]
         """Check if the pattern matches conditions for use of SimplifiedLayerNormalization op."""
         check_result = pattern.MatchResult()
@@ -71,6 +73,10 @@ class RmsNormFusion(pattern.RewriteRuleClassBase):
         # target_dtype is guaranteed to be the same as scale type in a well-typed input
         # for Mul(scale, normalized) to work. There is no need to check it here for a well-typed input.
         # TODO (rama): Consider adding checks to protect against incorrectly typed models:
+        # The fused op takes the scale before its Cast and its output has the scale's type: a Cast
+        # that changes the type would change the type of the result.
+        if scale_cast is not None and scale_cast.dtype != scale.dtype:
+            return check_result.fail("Scale is cast to a different type.", scale)
         return check_result
 
     def rewrite(self, op, x, scale, epsilon, **_):
